@@ -213,7 +213,7 @@ pub fn run(ctx: &mut Ctx) {
         let mut sig = r.to_vec();
         sig.extend_from_slice(&s);
         // verifier-side key object by provenance: decoded bytes / gen_keypair / Jacobian representation
-        let lpk = if i % 3 == 0 { lib_pk(&pk)? } else { lib_keys(&d, i as u64, p)?.0 };
+        let lpk = if i % 6 == 3 { lib_pk(&pk)? } else { lib_keys(&d, i as u64, p)?.0 };
         Some(Sample { d: Some(d), lpk, pk, id, id_str, msg, sig, origin: "reference-made" })
     };
     // sample 0 on every shard is the "other key" donor
